@@ -122,6 +122,11 @@ func main() {
 			}
 		}
 	}
+	if *exports != "" {
+		fl := filepath.Join(*out, "zz_verif_flavour.go")
+		os.WriteFile(fl, []byte(fmt.Sprintf("//go:build verif\n\npackage fr\n\nconst VerifPortable = %v\n", *portable)), 0o644)
+		overlay[filepath.Join(*repo, "bandersnatch/fr", "zz_verif_flavour.go")] = fl
+	}
 	if *portable {
 		// portable flavour: remove the assembly and its Go declarations, compile the noasm file instead
 		frd := filepath.Join(*repo, "bandersnatch/fr")
